@@ -165,8 +165,11 @@ Definition shift_start (t : qtime) (oldDelay : Z) : qtime :=
   end.
 Definition set_start (t : qtime) (s : option Z) : qtime := mkQT (qt_delay t) s (qt_running t).
 
-(* q holds the NEW max; t holds the NEW delay *)
-Definition setPreemptionTime (now : Z) (q : queue) (oldMax : ores) (oldDelay : Z) (t : qtime) : qtime :=
+(* q holds the NEW max; t holds the NEW delay.
+   [fixed] selects the code after the commit "fix: a quota change in different directions for different resource types
+   ignored a changed quota preemption delay" (true) or the code before it (false): the last branch, which moves an armed
+   start time by the change of the delay, was only taken for a strictly raised maximum *)
+Definition setPreemptionTimeF (fixed : bool) (now : Z) (q : queue) (oldMax : ores) (oldDelay : Z) (t : qtime) : qtime :=
   if qt_running t then t else
   if qt_delay t =? 0 then set_start t None else
   if IsZero (q_max q) then set_start t None else
@@ -181,12 +184,13 @@ Definition setPreemptionTime (now : Z) (q : queue) (oldMax : ores) (oldDelay : Z
     | Some _ => if negb (oldDelay =? qt_delay t) then shift_start t oldDelay else t
     | None => set_start t (Some (now + qt_delay t))
     end
-  else if StrictlyGreaterThan (q_max q) oldMax then
+  else if fixed || StrictlyGreaterThan (q_max q) oldMax then
     match qt_start t with
     | Some _ => if negb (oldDelay =? qt_delay t) then shift_start t oldDelay else t
     | None => t
     end
   else t.
+Definition setPreemptionTime := setPreemptionTimeF true.
 
 (* the re-arming at the end of IncAllocatedResource; q holds the usage after the increment *)
 Definition incAllocatedTime (now : Z) (enabled : bool) (q : queue) (t : qtime) : qtime :=
